@@ -1438,6 +1438,8 @@ func (se *SessionExecutor) rollback() (err error) {
 	se.status &= ^mysql.ServerStatusInTrans
 	for _, pc := range se.txConns {
 		if pc.IsClosed() {
+			// nothing to roll back on a broken connection, but its pool slot must still be given back
+			pc.Recycle()
 			continue
 		}
 		err = pc.Rollback()
